@@ -37,11 +37,11 @@ def plan(tier, seed):
     q = tier == "quick"
     jobs = []
     for i in range(NSH):
-        jobs.append({"name": "wrap%02d" % i, "spec": {"kind": "wrap", "n": 200 if q else 2400, "i": i}})
+        jobs.append({"name": "wrap%02d" % i, "spec": {"kind": "wrap", "n": 200 if q else 8000, "i": i}})
     for i in range(4 if q else NSH):
-        jobs.append({"name": "fresh%02d" % i, "spec": {"kind": "fresh", "n": 1500 if q else 8000, "ecc": 300 if q else 2000}})
+        jobs.append({"name": "fresh%02d" % i, "spec": {"kind": "fresh", "n": 1500 if q else 20000, "ecc": 300 if q else 6000}})
     for i in range(4 if q else NSH):
-        jobs.append({"name": "splice%02d" % i, "spec": {"kind": "splice", "n": 100 if q else 800, "i": i}})
+        jobs.append({"name": "splice%02d" % i, "spec": {"kind": "splice", "n": 100 if q else 3000, "i": i}})
     return jobs
 
 
